@@ -178,6 +178,14 @@ let model_styles ~nav dbg (h : DieRd.unit_header) (tbl : AbbrevRd.abbrevs) : str
     ([ tok true "raw" raw_s; tok nav "ent" ent_s; tok nav "dfs" dfs_s; tok nav "sib" sib_s ]
      @ [ tok nav "tree" tree_s; tok nav "skip" skip_s; tok nav "at" at_s; tok nav "from" from_s; tok nav "sub" sub_s ])
 
+(* first token of a result line: `ok`, or `raw!<Error>` when raw reading ended in an error (feeds the
+   outcome histogram of the evidence); computed from the text of the `raw=` token on both sides *)
+let class_of (line : string) : string =
+  let raw = try List.find (fun t -> String.length t > 4 && String.sub t 0 4 = "raw=") (String.split_on_char ' ' line)
+    with Not_found -> "raw=" in
+  let last = match List.rev (String.split_on_char ';' (String.sub raw 4 (String.length raw - 4))) with x :: _ -> x | [] -> "" in
+  (if String.length last > 0 && last.[0] = '!' then "raw" ^ last else "ok") ^ " " ^ line
+
 (* the whole result line for one unit + abbreviation section, from the model *)
 let model_line ~nav dbg bigend types (info : Byte0.byte list) (abbrev : Byte0.byte list) : string =
   try
@@ -185,8 +193,8 @@ let model_line ~nav dbg bigend types (info : Byte0.byte list) (abbrev : Byte0.by
     let (h, _) = must (DieRd.parse_unit_header bigend types BinNums.N0 info) in
     let hdr = "hdr=" ^ show_hdr dbg h in
     match r3 (AbbrevRd.abbreviations_at dbg abbrev h.DieRd.u_abbrev) with
-    | Error x -> hdr ^ " abbrev=!" ^ Errnames.name x
-    | Ok tbl -> hdr ^ " " ^ model_styles ~nav dbg h tbl
+    | Error x -> "abbrev!" ^ Errnames.name x ^ " " ^ hdr ^ " abbrev=!" ^ Errnames.name x
+    | Ok tbl -> class_of (hdr ^ " " ^ model_styles ~nav dbg h tbl)
   with Stop s -> s
 
 (* ================================================================== generators *)
@@ -506,7 +514,7 @@ let spec_line (u : unit_case) : string =
     join "," (List.filteri (fun j _ -> j >= i) (Array.to_list ents)
               |> List.map (fun (d, dp, _, _) -> spf "%s:%d" (sn d.d_offset) (dp - dep)))) in
   let sub_s = per (fun _ _ _ _ sub -> join "," (List.map (fun (o, dp) -> spf "%s:%d" (Z.to_string o) dp) sub)) in
-  String.concat " "
+  "ok " ^ String.concat " "
     [ "hdr=" ^ hdr; "raw=" ^ raw_s; "ent=" ^ fnv raw_s; "dfs=" ^ fnv dfs_s; "sib=" ^ fnv sib_s;
       "walk=" ^ fnv walk_s; "tree=" ^ fnv tree_s; "skip=" ^ fnv skip_s; "at=" ^ fnv at_s; "from=" ^ fnv from_s; "sub=" ^ fnv sub_s ]
 
